@@ -556,6 +556,10 @@ def run_cases(prop_id: str, module: str, cases: List[Case], tier: str, seed: int
                 # the twin's witness, run on the real code without tracing, must satisfy the property
                 rep = t.get("replay") or {}
                 t["witness_ok"] = bool(rep.get("ran") and rep.get("value") is False)
+            elif tst == "confirmed" and any(_matches(e, c) and e.get("when") for e in known):
+                # every input of this case lies inside a listed known-finding region: nothing is
+                # left to check here (the case is not counted as non-trivial)
+                t["fully_excluded"] = True
             elif tst in ("confirmed", "pre_unsat"):
                 out.harness_errors.append(
                     f"{c.template}:{c.label}: reachability twin came back {tst}: the assertion is never reached"
